@@ -55,6 +55,22 @@ def gen(rng, i, tier):
             for l in chosen:
                 v = F(rng.choice(dom)) if rng.random() < 0.75 else G.coef(rng, zero_ok=True)
                 vs.append([C.enc(l), [v.numerator, v.denominator]])
+            if t and rng.random() < 0.3:
+                # exact cancellation after the substitution: a term and its product with one more variable, whose value
+                # turns the longer one into the negative of the shorter
+                cand = [(k, v) for k, v in t if v != 0 and len(set(k)) <= (1 if quad else 3)]
+                if cand:
+                    k, v = rng.choice(cand)
+                    pool = [l for l in (C.POOL if uni == 'pool' else range(8)) if l not in k]
+                    l = rng.choice(pool)
+                    val = rng.choice(dom)
+                    k2 = tuple(sorted(set(k) | {l}, key=C.enc))
+                    t = [(kk, vv) for kk, vv in t if tuple(sorted(set(kk), key=C.enc)) != k2] + [(k2, -v if val == 1 else v)]
+                    if not spin and val == 0:
+                        val = 1
+                        t[-1] = (k2, -v)
+                    vs = [x for x in vs if x[0] != C.enc(l)] + [[C.enc(l), [val, 1]]]
+                    case["terms"] = G.jraw(t)
             case["vals"] = vs
         elif op == "subgraph":
             nodes = [l for l in labs if rng.random() < 0.5]
